@@ -52,7 +52,10 @@ func (g *customGen[V]) maybeValue(t *T) (V, bool) {
 		}
 	}()
 
-	return g.fn(t), true
+	v := g.fn(t)
+	t.failOnError() // a non-fatal failure fails the test case: do not let a later rejection hide it
+
+	return v, true
 }
 
 // Deferred creates a generator which defers calling fn until attempting to produce a value. This allows
